@@ -152,3 +152,58 @@ extern "C" void onc_final()
     verif_assert(once_runs == 1, "the callable ran exactly once");
     verif_cover(0);
 }
+
+// ---- call_once with a throwing first attempt: the thrower retries while another caller waits ---------------------------
+struct once_failure
+{
+};
+static pika::once_flag xflag;
+static int x_attempts, x_inside, x_completed;
+static void x_body()
+{
+    int my = ++x_attempts;
+    verif_assert(x_inside == 0, "the callable of a call_once flag never runs on two callers at the same time");
+    ++x_inside;
+    verif_yield();
+    --x_inside;
+    if (my == 1) throw once_failure{};    // the first elected attempt fails: the flag must go back to "not called"
+    ++x_completed;
+}
+extern "C" void oncx_init() {}
+extern "C" void oncx_thread_0()
+{
+    for (int k = 0; k < 2; ++k)
+    {
+        try
+        {
+            pika::call_once(xflag, x_body);
+            verif_assert(x_completed == 1, "call_once returns normally only after one invocation of the callable completed");
+            return;
+        }
+        catch (once_failure const&)
+        {
+            verif_assert(k == 0 && x_completed == 0, "only the failing first attempt propagates its exception, to its own caller");
+        }
+    }
+}
+extern "C" void oncx_thread_1()
+{
+    try
+    {
+        pika::call_once(xflag, x_body);
+        verif_assert(x_completed == 1, "call_once returns normally only after one invocation of the callable completed");
+    }
+    catch (once_failure const&)
+    {
+        verif_assert(x_completed == 0, "an exception reaches the caller that ran the failing attempt");
+        // this caller ran the failing attempt itself: it retries once
+        pika::call_once(xflag, x_body);
+        verif_assert(x_completed == 1, "call_once returns normally only after one invocation of the callable completed");
+    }
+}
+extern "C" void oncx_final()
+{
+    verif_assert(x_completed == 1, "exactly one invocation of the callable completed");
+    verif_assert(x_attempts == 2, "one failed and one successful attempt");
+    verif_cover(0);
+}
